@@ -1,1 +1,69 @@
-(* C09 -- theorems to be stated here. *)
+(* C09 -- the exported IV state resumes the stream and equals the public chaining value.
+   (1) generic: processing a ++ b is processing a, then b from the state reached (any body);
+   (2) per mode: a fresh instance initialised with the exported value IS in the original's state,
+       and the exported value is the mode's public chaining value;
+   (3) encryptor and decryptor on corresponding data reach the same state (read off C02/C03). *)
+From BM Require Import BlockModes Spec BlockModes_proofs Spec_proofs Ints Ints_proofs Ctr Belt Stream Stream_proofs
+  Ctr_proofs Belt_proofs Resume_proofs.
+
+Theorem C09_resume_generic : forall (S : Type) (single : S -> cell -> S * cell) st a b,
+  fold_cells single st (a ++ b) =
+  let '(st1, a1) := fold_cells single st a in let '(st2, b1) := fold_cells single st1 b in (st2, a1 ++ b1).
+Proof. intros. apply fold_cells_app. Qed.
+Print Assumptions C09_resume_generic.
+
+Theorem C09_export_import_identity : forall st : block,
+  cbc_init (cbc_iv_state st) = st /\ pcbc_init (pcbc_iv_state st) = st /\
+  cfb8_init (cfb8_iv_state st) = st /\ ofb_init (ofb_iv_state st) = st.
+Proof. intros st. repeat split; reflexivity. Qed.
+Print Assumptions C09_export_import_identity.
+
+Theorem C09_ige : forall (C : cipher) x y, length y = c_bs C ->
+  ige_iv_state (x, y) = y ++ x /\ ige_init C (ige_iv_state (x, y)) = (x, y).
+Proof. intros C x y H. split; [reflexivity | now apply ige_export_import]. Qed.
+Print Assumptions C09_ige.
+
+(* CFB: the stored state is E(chain); the exported value is chain = the last ciphertext block *)
+Theorem C09_cfb : forall (C : cipher) chain, DE_id C -> length chain = c_bs C ->
+  cfb_iv_state C (c_E C chain) = chain /\ cfb_init C (cfb_iv_state C (c_E C chain)) = c_E C chain.
+Proof. intros C chain DE H. split; [now apply cfb_export | now apply cfb_export_import]. Qed.
+Print Assumptions C09_cfb.
+
+Theorem C09_cfb_states : forall (C : cipher) iv ps cs,
+  last (map (c_E C) (cfb_enc_spec (c_E C) iv ps)) (c_E C iv) = c_E C (last (cfb_enc_spec (c_E C) iv ps) iv) /\
+  last (map (c_E C) cs) (c_E C iv) = c_E C (last cs iv).
+Proof. intros C iv ps cs. split; [apply cfb_enc_state | apply cfb_dec_state]. Qed.
+Print Assumptions C09_cfb_states.
+
+(* CBC: the encryptor's state after ps is the last ciphertext block, which is what the decryptor fed
+   with that ciphertext holds (cbc_chain of its input) -- equal exported states; same shape for the
+   other modes is read off the final states in Props/C02.v and Props/C03.v *)
+Theorem C09_cbc_enc_dec_agree : forall (C : cipher) sched1 sched2 iv cs cs2,
+  sched_total sched1 = length cs -> sched_total sched2 = length cs2 ->
+  map rd_in cs2 = map cout (snd (run_sched (cbc_enc_block C) cbc_enc_w (cbc_enc_par C) iv sched1 cs)) ->
+  fst (run_sched (cbc_dec_block C) (cbc_dec_w C) (cbc_dec_par C) iv sched2 cs2) =
+  fst (run_sched (cbc_enc_block C) cbc_enc_w (cbc_enc_par C) iv sched1 cs).
+Proof.
+  intros C sched1 sched2 iv cs cs2 H1 H2 H. rewrite cbc_enc_sched in * by auto. rewrite cbc_dec_sched by auto.
+  cbn [fst snd] in *. rewrite H. rewrite map_cout_map2_wr_out; auto.
+  rewrite (cbc_enc_spec_length (c_E C)), map_length. reflexivity.
+Qed.
+Print Assumptions C09_cbc_enc_dec_agree.
+
+(* CTR (all flavours): exported = next counter block = layout(IV, i); a fresh core from it has the
+   same future keystream (its own counter restarts at 0) *)
+Theorem C09_ctr : forall (F : flavor), 0 < f_cs F -> forall (C : cipher) chs i n,
+  chs <> [] -> all_len (f_cs F) chs -> bytes_ok (concat chs) ->
+  let exported := ctr_iv_state F (mkcn i (cn_nonce (from_nonce F (concat chs)))) in
+  exported = layout F (concat chs) i /\
+  snd (ctr_gen_n F C n (ctr_init F exported)) =
+  snd (ctr_gen_n F C n (mkcn i (cn_nonce (from_nonce F (concat chs))))).
+Proof. exact ctr_resume. Qed.
+Print Assumptions C09_ctr.
+
+(* BelT-CTR: exported = D(le128(s)); needs E(D x) = x *)
+Theorem C09_belt : forall (C : cipher) s si n, ED_id C -> c_bs C = 16 -> (s < pow2 128)%N ->
+  belt_init C (belt_iv_state C (mkbelt s si)) = mkbelt s s /\
+  snd (belt_gen_n C n (mkbelt s s)) = snd (belt_gen_n C n (mkbelt s si)).
+Proof. exact belt_resume. Qed.
+Print Assumptions C09_belt.
